@@ -425,13 +425,19 @@ def _check_equiv(case):
     a_raw = P[case["i"]]
     objs = getattr(_check_equiv, "_objs", None)
     if objs is None or objs[0] != (case["tier"], case["seed"]):
-        objs = ((case["tier"], case["seed"]), [SS([list(s[0]), list(s[1])]) for s in P])
+        built = [_construct(SS, [list(s[0]), list(s[1])]) for s in P]
+        objs = ((case["tier"], case["seed"]), [r[1] if r[0] == "ok" else None for r in built])
         _check_equiv._objs = objs
     S = objs[1]
     a = S[case["i"]]
     evals = 0
+    if a is None:       # a valid scheme that the constructor refuses (repo fault, not a harness fault)
+        F.add("C19.accept", "ScoringScheme.__init__ rejects a valid scheme", {"penalties": a_raw})
+        return {"fails": F.items, "key": None, "evals": 1, "sample": {"a": a_raw}}
     for j, b_raw in enumerate(P):
         b = S[j]
+        if b is None:
+            continue
         for api, stop in (("is_equivalent_to", 6), ("is_equivalent_to_on_complete_rankings_only", 3)):
             evals += 1
             want = O.proportional(a_raw, b_raw, stop)
@@ -457,9 +463,9 @@ def _check_homog(case):
     _exp, conv = A.expected_names(rankings)
     ds = A.mk_dataset(rankings)
     rc = A.mk_ranking([[conv(x) for x in b] for b in cand])
-    s = A.mk_scheme(scheme)
     evals = 0
     try:
+        s = A.mk_scheme(scheme)
         base = float(KemenyComputingFactory(s).get_kemeny_score(rc, ds))
     except Exception as e:      # noqa: BLE001
         F.add("C19.homog", "get_kemeny_score raised", {"exception": "%s: %s" % (type(e).__name__, e)})
